@@ -1,5 +1,6 @@
 #!/bin/bash
 # import_seed6.sh Cnn L : copy the round-6 deliverables of /tmp/seed6/Cnn/SEED into /verif/seeded/Cnn-L, remove the worktree
+# (also used for round 6b)
 p=$1; l=$2; S=/tmp/seed6/$p/SEED
 [ -f $S/bugA.diff ] || { echo "no deliverables in $S"; exit 1; }
 d=/verif/seeded/$p-$l; mkdir -p $d
